@@ -355,6 +355,13 @@ func sweep() int {
 		for _, o := range res.New {
 			code = 1
 			fmt.Printf("SWEEP %s %s %s\n", id, o.Verdict, o.Key)
+			if os.Getenv("SWEEP_DETAIL") != "" {
+				d := o.Detail
+				if len(d) > 400 {
+					d = d[:400]
+				}
+				fmt.Printf("      at %s: %s\n", o.Pos, d)
+			}
 		}
 	}
 	fmt.Printf("SWEEP done exit=%d\n", code)
